@@ -109,18 +109,29 @@ func (w *World) chanReady(self *G, c *vchan, send bool) int {
 			}
 			return 0
 		}
-		if len(w.partners(self, c, true)) > 0 {
-			return 2
-		}
-		return 0
+		return partnerReadiness(w.partners(self, c, true))
 	}
 	if len(c.buf) > 0 || c.closed {
 		return 1
 	}
-	if c.cap == 0 && len(w.partners(self, c, false)) > 0 {
-		return 2
+	if c.cap == 0 {
+		return partnerReadiness(w.partners(self, c, false))
 	}
 	return 0
+}
+
+// partnerReadiness: 0 no partner, 1 a partner that is known to be parked, 2 a partner that has reached
+// its operation but may not have parked yet (a non-blocking operation may still miss it).
+func partnerReadiness(ps []*G) int {
+	if len(ps) == 0 {
+		return 0
+	}
+	for _, p := range ps {
+		if p.parked {
+			return 1
+		}
+	}
+	return 2
 }
 
 func (w *World) enabled(g *G, o *op) bool {
